@@ -1336,7 +1336,9 @@ def pred_search(spec: dict, x0, np_seed: int, ts_steps: int = 40, reuse: dict | 
     tol_req = float(spec.get("tol", 1e-4))
     if hasattr(pot, "gradient_exact"):
         g = pot.gradient_exact(x.copy())
-        margin = 4.0 * 2.3e-16 * max(1.0, abs(float(pot.function(x.copy())))) / 1e-6
+        # round-off of (f(x+h) - f(x-h)) / 2h with h = 1e-6: each value carries ~ d^2 rounding errors of size eps * scale(f)
+        fscale = max(1.0, abs(float(pot.function(x.copy()))), abs(float(pot.function(np.zeros_like(x)))))
+        margin = 50.0 * len(x) * 2.3e-16 * fscale / 1e-6
     else:
         g, margin = pot.gradient(x.copy()), 0.0
     free = ~((x <= lo) | (x >= up))
